@@ -1,5 +1,7 @@
 import HcipyVerif.Lemmas.GridMut
 import HcipyVerif.Lemmas.GridHeap
+import HcipyVerif.Lemmas.GridOld
+import HcipyVerif.Lemmas.GridLayout
 
 /-!
 # C10 — Grid identity: equality is an equivalence consistent with hashing
@@ -283,7 +285,12 @@ apart from `reset`, a request changes at most one already existing slot. -/
 theorem stepStore_frame (st st' : Store) (toks : List String) (out : String)
     (h : stepStore st toks = some (st', out)) (hr : toks ≠ ["reset"]) :
     ∃ i, ∀ j, j < st.length → j ≠ i → st'[j]? = st[j]? := by
-  simp only [stepStore, hr, if_false, Option.map_eq_some_iff, Prod.mk.injEq] at h
+  unfold stepStore at h
+  rw [if_neg hr] at h
+  split at h
+  · simp only [Option.some.injEq, Prod.mk.injEq] at h
+    rw [← h.1]; exact ⟨0, fun _ _ _ => rfl⟩
+  simp only [Option.map_eq_some_iff, Prod.mk.injEq] at h
   obtain ⟨⟨e, o⟩, _, rfl, _⟩ := h
   cases e with
   | keep => exact ⟨0, fun _ _ _ => rfl⟩
@@ -468,6 +475,42 @@ theorem ref_ops_are_coords_ops (a : List (List Rat)) (f b : List Rat) (r : List 
   · simp only [Coords.scale, ArrOp.apply, List.map_zipWith, List.zipWith_map_left]
     exact ⟨trivial, trivial⟩
 
+/-! ## Memory layout: `==` and the hash read values, not bytes (`Model/GridLayout.lean`; driver op `hashl`) -/
+
+/-- **The hash input is independent of the memory layout**: coordinate arrays that denote the same values —
+contiguous, negative stride (what `reverse()` leaves behind), strided or offset views of other buffers — give the
+same hash input. -/
+theorem hash_layout_independent (sys : System) (sep : Bool) (a b : List LArr)
+    (h : a.map LArr.values = b.map LArr.values) : hashInputL sys sep a = hashInputL sys sep b := by
+  simp [hashInputL, coordsOfLayout, h]
+
+/-- the four layouts the driver builds (`LArr.make`: contiguous / negative stride / stride 2 / offset) all denote
+the values they were made from, so the hash input through any mixture of them is the hash input of the grid. -/
+theorem hash_of_any_layout (sys : System) (sep : Bool) (modes : List Nat) (arrays : List (List Rat))
+    (h : modes.length = arrays.length) :
+    hashInputL sys sep (List.zipWith LArr.make modes arrays) =
+      (Grid.mk sys (if sep then .separated arrays else .unstructured arrays) .none).hashInput := by
+  simp [hashInputL, coordsOfLayout, map_values_zipWith_make modes arrays h]
+
+example : ([1, 2] : List Nat).length = ([[0, 1], [2]] : List (List Rat)).length := rfl
+
+/-- **`reverse()` in place leaves negative-stride views behind; their hash is the hash of an independently
+constructed grid with the reversed values** (and `==` holds between the two: both read values). -/
+theorem hash_reversed_view (sys : System) (axes : List (List Rat)) :
+    hashInputL sys true (axes.map fun v => (LArr.ofList v).rev) =
+      (Grid.mk sys (.separated axes) .none).reverse.hashInput ∧
+    coordsOfLayout true (axes.map fun v => (LArr.ofList v).rev) = (Coords.separated axes).reverse := by
+  have : (axes.map fun v => (LArr.ofList v).rev).map LArr.values = axes.map List.reverse := by
+    simp [List.map_map, Function.comp_def, LArr.values_rev _ (LArr.valid_ofList _), LArr.values_ofList]
+  simp [hashInputL, coordsOfLayout, this, Grid.reverse, Coords.reverse, Grid.hashInput]
+
+/-- the layout flag itself: a reversed view of two or more elements is not C-contiguous, a fresh array is -/
+theorem rev_not_contiguous (v : List Rat) (h : 2 ≤ v.length) :
+    (LArr.ofList v).contiguous = true ∧ (LArr.ofList v).rev.contiguous = false := by
+  simp [LArr.contiguous, LArr.rev, LArr.ofList]; omega
+
+example : (2 : Nat) ≤ ([0, 1] : List Rat).length := by decide
+
 /-! ## Old — the code before the repairs (documentation of D2 / D24; code that no longer exists in /repo:
 not evidence for the property) -/
 
@@ -483,8 +526,14 @@ theorem Old.sepEq_eq_of_rect (a b : List (List Rat)) (ha : rect a = true) (hb : 
 /-- D24: the old hash fed dtype-dependent bytes: an integer-typed and a float-typed regular grid
 compare equal but hash differently. -/
 theorem Old.hash_int_float :
-    ∃ a b : List RegAxisOld, regEqOld a b = true ∧ regHashInputOld a ≠ regHashInputOld b :=
+    ∃ a b : List Old.RegAxisOld, Old.regEqOld a b = true ∧ Old.regHashInputOld a ≠ Old.regHashInputOld b :=
   ⟨[⟨⟨1, true⟩, 4, ⟨0, true⟩⟩], [⟨⟨1, false⟩, 4, ⟨0, false⟩⟩], by decide, by decide⟩
+
+/-- D26: the old hash read the raw buffer: after an in-place `reverse()` (negative stride) it raised, while the
+repaired hash input is defined for every layout. -/
+theorem Old.raw_hash_raises_on_reversed_view :
+    Old.rawHashInput? [(LArr.ofList [0, 1, 3]).rev] = none ∧ Old.rawHashInput? [LArr.ofList [3, 1, 0]] = some [3, 1, 0] ∧
+    (LArr.ofList [0, 1, 3]).rev.values = [3, 1, 0] := by decide +kernel
 
 example : ∃ g : Grid, g.coords.WF := ⟨⟨.cartesian, .separated [[0, 1, 2], [0, 1]], .none⟩, by decide⟩
 
